@@ -25,6 +25,7 @@ TInit == cid \in 1..Len(Cases) /\ l = 1 /\ verdict = <<"run">> /\ seen = {} /\ A
 ApiStep(e) ==
   CASE e.op = "create" -> Create(e.model, e.target, e.jit)
     [] e.op = "fill" -> FillTemplate(e.f, e.p)
+    [] e.op = "rejected" -> RejectedCall(e.f, e.p, e.init, e.seed, e.kind)
     [] e.op = "solve" -> CallSolve(e.f, e.p, e.via)
     [] e.op = "simulate" -> CallSimulate(e.f, e.p, e.init, e.seed, e.vfrom, e.via)
     [] e.op = "solve_and_simulate" /\ e.vfrom = 0 -> CallSolveAndSimulate(e.f, e.p, e.init, e.seed, e.via)
@@ -34,6 +35,13 @@ Judge(e, term) ==
   IF e.op = "create" THEN
      (IF e.model_fp_before # e.model_fp_after THEN Fail("model-mutated", ToString(<<"create", l>>)) ELSE <<"run">>)
   ELSE IF e.op = "fill" THEN <<"run">>
+  ELSE IF e.op = "rejected" THEN
+     (IF ~e.error THEN Fail("bad-call-accepted", ToString(<<e.kind, l>>))
+      ELSE IF e.cls # "ValueError" THEN Fail("bad-call-wrong-error-class", ToString(<<e.kind, e.cls, e.msg>>))
+      ELSE IF e.model_fp_before # e.model_fp_after THEN Fail("model-mutated", ToString(<<e.op, l>>))
+      ELSE IF e.params_fp_before # e.params_fp_after THEN Fail("params-mutated", ToString(<<e.op, l>>))
+      ELSE IF e.held_fp_before # e.held_fp_after THEN Fail("held-params-mutated", ToString(<<e.op, l>>))
+      ELSE <<"run">>)
   ELSE IF e.error THEN Fail("crash", ToString(<<e.op, e.cls, e.msg>>))
   ELSE IF e.model_fp_before # e.model_fp_after THEN Fail("model-mutated", ToString(<<e.op, l>>))
   ELSE IF e.params_fp_before # e.params_fp_after THEN Fail("params-mutated", ToString(<<e.op, l>>))
@@ -49,7 +57,7 @@ TStep ==
   /\ ApiStep(Ev)
   /\ LET term == hist'[Len(hist')].term
      IN /\ verdict' = Judge(Ev, term)
-        /\ seen' = IF Ev.op \in {"create", "fill"} \/ Ev.error THEN seen ELSE seen \cup {<<term, Ev.digest>>}
+        /\ seen' = IF Ev.op \in {"create", "fill", "rejected"} \/ Ev.error THEN seen ELSE seen \cup {<<term, Ev.digest>>}
   /\ l' = l + 1 /\ UNCHANGED cid
 \* results of the same calls in other processes (other PYTHONHASHSEED): compared through the term
 TExtern ==
